@@ -28,7 +28,7 @@ fn spec(t: Tier) -> Spec {
     Spec {
         id: "C05",
         level: "model_checking",
-        rule: format!("default mode: every string of <= {a} symbols over {{space,tab,newline,',\",\\,a,b,é,à}} is read by the real WhitespaceDelimitedArgumentReader (hook H1) in one read() and compared with the reference tokenizer (bytes and line-end flags); every string of <= {b} symbols is read under EVERY composition of its bytes into read() results (incl. 1-byte reads, cuts inside é, inside quotes, after a backslash) and must give the single-read answer; buffer edge: 'a'*k ++ s for every 4090 <= k+|s| <= 4100 and every s of <= {c} symbols with 0, 1 and 2 extra cuts at every position within +-4 of 4096; EINTR injected before each read (must be retried), EIO (must propagate). -0 / -d x / -d '\\n': strings <= {d} over {{a,b,NUL,x,newline,',\",\\,space,0xFF,é}} in one read, <= {e} under every chunking, and 'a'*k ++ s around the BufReader's 8192 edge. state = (bytes consumed, reader's pending/escape state) explored through every environment schedule; transitions = read() answers. Scale slice: three streams of 20-40 KB (arguments of cycling lengths incl. 5000, 9000 and 20000 bytes, a 6000-byte quoted argument with blanks, tabs and single quotes, backslash-newline, é/à, a run of 4097 blanks / 8193 delimiters) in one read(), in equal chunks of 1, 7, 4095..4097, 8191..8193 bytes and with each of the first 24 refills shifted by one byte. Binary slice: strings <= 3 piped into the xargs binary byte-by-byte and in one write."),
+        rule: format!("default mode: every string of <= {a} symbols over {{space,tab,newline,',\",\\,a,b,é,à}} is read by the real WhitespaceDelimitedArgumentReader (hook H1) in one read() and compared with the reference tokenizer (bytes and line-end flags); every string of <= {b} symbols is read under EVERY composition of its bytes into read() results (incl. 1-byte reads, cuts inside é, inside quotes, after a backslash) and must give the single-read answer; buffer edge: 'a'*k ++ s for every 4090 <= k+|s| <= 4100 and every s of <= {c} symbols with 0, 1 and 2 extra cuts at every position within +-4 of 4096; EINTR injected before each read (must be retried), EIO (must propagate). -0 / -d x / -d '\\n': strings <= {d} over {{a,b,NUL,x,newline,',\",\\,space,0xFF,é}} in one read, <= {e} under every chunking, and 'a'*k ++ s around the BufReader's 8192 edge. state = (bytes consumed, reader's pending/escape state) explored through every environment schedule; transitions = read() answers. Scale slice: three streams of 20-40 KB (arguments of cycling lengths incl. 5000, 9000 and 20000 bytes, a 6000-byte quoted argument with blanks, tabs and single quotes, backslash-newline, é/à, a run of 4097 blanks / 8193 delimiters) in one read(), in equal chunks of 1, 7, 4095..4097, 8191..8193 bytes and with each of the first 24 refills shifted by one byte. Special inputs through the binary: a /proc file (st_size 0), a FIFO written in two pieces, /proc/self/cmdline (NUL-separated), each via -a FILE and via standard input. Binary slice: strings <= 3 piped into the xargs binary byte-by-byte and in one write."),
         bound: json!({"single_read_len": a, "all_chunkings_len": b, "edge_suffix_len": c, "byte_mode_len": d, "byte_mode_chunk_len": e}),
         assumptions: vec![
             "set aside (run for determinism only): strings ending in a lone unquoted backslash, a newline inside quotes, CR/VT/FF".into(),
@@ -444,6 +444,9 @@ fn run(ctx: &mut Ctx) {
         }
     }
     scale_slice(ctx, &reads, &mut states);
+    if ctx.shard == 5 % ctx.nshards {
+        special_input_slice(ctx);
+    }
     ctx.rep.states = states;
     ctx.rep.transitions = reads.get();
     binary_slice(ctx);
@@ -627,6 +630,69 @@ fn binary_slice(ctx: &mut Ctx) {
 
 /// The -d operand through the real option parser: the input must be split at exactly the byte
 /// (sequence) the operand names and nowhere else — or the operand refused and nothing run.
+/// Inputs that are not regular files with a truthful size: a /proc file (st_size 0), a FIFO, the
+/// process's own /proc/self/cmdline (NUL-separated), via -a FILE and via standard input.
+fn special_input_slice(ctx: &mut Ctx) {
+    use std::ffi::OsStr;
+    let sbx = ctx.sbx.clone();
+    let vrec = crate::engine::self_bin_dir().join("vrec");
+    let xargs = crate::binrun::repo_bin("xargs");
+    let log = sbx.join(".mc-vrec.log");
+    let fifo = sbx.join(".mc-fifo");
+    let _ = std::fs::remove_file(&fifo);
+    let cf = std::ffi::CString::new(fifo.to_string_lossy().as_bytes()).unwrap();
+    if unsafe { libc::mkfifo(cf.as_ptr(), 0o600) } != 0 {
+        ctx.rep.machinery("mkfifo".into());
+        return;
+    }
+    let ostype = std::fs::read_to_string("/proc/sys/kernel/ostype").unwrap_or_default().trim().to_string();
+    let (x, v, l, f) = (xargs.display().to_string(), vrec.display().to_string(), log.display().to_string(), fifo.display().to_string());
+    // (shell command, expected invocations, writes to the FIFO?)
+    let cases: Vec<(String, Vec<Vec<String>>, bool)> = vec![
+        (format!("exec {x} -a /proc/sys/kernel/ostype {v} {l}"), vec![vec![ostype.clone()]], false),
+        (format!("exec {x} {v} {l} < /proc/sys/kernel/ostype"), vec![vec![ostype.clone()]], false),
+        (format!("exec {x} -n2 -a {f} {v} {l}"), vec![vec!["a".into(), "b".into()], vec!["c".into(), "d".into()], vec!["e".into()]], true),
+        (format!("exec {x} -n2 {v} {l} < {f}"), vec![vec!["a".into(), "b".into()], vec!["c".into(), "d".into()], vec!["e".into()]], true),
+        (format!("exec {x} -0 -a /proc/self/cmdline {v} {l}"), vec![vec![x.clone(), "-0".into(), "-a".into(), "/proc/self/cmdline".into(), v.clone(), l.clone()]], false),
+        (format!("exec {x} -0 {v} {l} < /proc/self/cmdline"), vec![vec![x.clone(), "-0".into(), v.clone(), l.clone()]], false),
+    ];
+    for (cmd, want, uses_fifo) in cases {
+        let _ = std::fs::remove_file(&log);
+        let writer = if uses_fifo {
+            let fp = fifo.clone();
+            Some(std::thread::spawn(move || {
+                use std::io::Write;
+                if let Ok(mut w) = std::fs::OpenOptions::new().write(true).open(&fp) {
+                    let _ = w.write_all(b"a b\nc ");
+                    std::thread::sleep(std::time::Duration::from_millis(30));
+                    let _ = w.write_all(b"d e\n");
+                }
+            }))
+        } else {
+            None
+        };
+        let o = crate::binrun::run(std::path::Path::new("/bin/sh"), &[OsStr::new("-c"), OsStr::new(&cmd)], &sbx, &crate::binrun::Opts { timeout_s: 30, ..Default::default() });
+        if let Some(w) = writer {
+            let _ = w.join();
+        }
+        let got: Vec<Vec<String>> = crate::vreclog::read(&log).unwrap_or_default().into_iter().map(|r| r.args.iter().map(|a| String::from_utf8_lossy(a).to_string()).collect()).collect();
+        ctx.rep.evaluations += 1;
+        ctx.rep.nontrivial += 1;
+        ctx.rep.count("special_input_cases", 1);
+        if got != want || o.code != Some(0) {
+            ctx.rep.violation(
+                "C05 arguments lost or altered when the input is a FIFO or a /proc file (not a regular file with a truthful size)",
+                format!("sh -c {cmd:?}: status {:?}\n expected {:?}\n actual   {:?}\n stderr {:?}", o.code, want, got, String::from_utf8_lossy(&o.err)),
+                json!({"prop":"C05","binary":true,"input":[]}),
+            );
+        } else {
+            ctx.rep.traces_validated += 1;
+        }
+    }
+    let _ = std::fs::remove_file(&fifo);
+    let _ = std::fs::remove_file(&log);
+}
+
 fn delimiter_option_slice(ctx: &mut Ctx) {
     use std::io::Write;
     let vrec = crate::engine::self_bin_dir().join("vrec");
